@@ -1,6 +1,6 @@
 /-
 C01 line-protocol driver (grammar: see Proto.lean). Answer: for every operation of the history
-  <result>|<config read back>|<who holds a socket on every address>
+  <result>|<config read back>|<who holds a socket on every address>|<guest / hosts pool refs>
 joined by spaces; `bad-op` for anything malformed.
 -/
 import CaddyModel.C01.Proto
@@ -9,7 +9,7 @@ namespace CaddyModel.C01
 open CaddyModel.Lifecycle CaddyModel.Lifecycle.Proto
 
 def showStep (p : Res × State) : String :=
-  showRes p.1 ++ "|" ++ (match p.2.raw with | some c => showCfg c | none => "null") ++ "|" ++ showSocks p.2.socks
+  showRes p.1 ++ "|" ++ (match p.2.raw with | some c => showCfg c | none => "null") ++ "|" ++ showSocks p.2.socks ++ "|" ++ showPool p.2.mpool
 
 def handle (fs : List String) : String :=
   match parseCase fs with
